@@ -252,6 +252,42 @@ def trim_property(w, ess, bins):
     return None, tags
 
 
+def unnormalised_trim_cases(rng, k):
+    """weights whose sum is far from one: raw importance ratios exp(logw) (tiny or huge total mass), plain rand(n),
+    weights relative to the largest / smallest one, overall scales 1e-40 .. 1e40 -- trim_weights normalises its input itself,
+    so the whole contract (in particular ESS(trimmed) >= ess * ESS(all)) must hold for them"""
+    out = []
+    for i in range(k):
+        n = rng.randint(2, 40) if i % 4 == 0 else rng.randint(41, 700)
+        fam = rng.choice(["exp-logw", "exp-logw", "rand", "rel-max", "rel-min", "temper", "lognormal"])
+        if fam == "exp-logw":
+            sd = 10.0 ** rng.uniform(-0.5, 1.0)
+            sh = rng.choice([0.0, -50.0, -300.0, 40.0, 300.0])
+            w = [math.exp(max(-700.0, min(700.0, sd * rng.gauss(0, 1) + sh))) for _ in range(n)]
+        elif fam == "rand":
+            w = [rng.random() for _ in range(n)]
+        elif fam in ("rel-max", "rel-min"):
+            base = [math.exp(rng.gauss(0, 2.0)) for _ in range(n)]
+            ref = max(base) if fam == "rel-max" else min(base)
+            w = [x / ref for x in base]
+        elif fam == "temper":
+            kk = 10.0 ** rng.uniform(-3, 0)
+            w = [math.exp(-kk * r) for r in range(n)]
+            rng.shuffle(w)
+        else:
+            sg = rng.uniform(0.3, 3)
+            w = [math.exp(sg * rng.gauss(0, 1)) for _ in range(n)]
+        sc = 10.0 ** rng.choice([0, 0, -40, 40, -12, 7, -3, 2])
+        w = [min(x * sc, 1e300) for x in w]
+        if not any(x > 0 for x in w):
+            w[0] = 1.0
+        if rng.random() < 0.6:
+            out.append((w, rng.choice([0.99, 0.99, 0.999, 0.9]), 1000))
+        else:
+            out.append((w, rng.choice([0.3, 0.5, 0.9, 0.99, 0.999]), rng.choice([2, 3, 10, 100, 1000])))
+    return out
+
+
 def _trim_cases(tier, rng):
     c20 = _c20()
     cases = [([1.0, 1.0, 1.0, 1.0], 0.99, 1000), ([0.5, 0.5], 0.5, 1), ([1.0], 0.99, 1000), ([1.0, 2.0, 3.0, 4.0], 0.9, 5),
@@ -278,6 +314,7 @@ def _trim_cases(tier, rng):
             cases.append((w, rng.choice([0.5, 0.9, 0.99]), 1))
         else:
             cases.append((w, rng.choice([0.05, 0.3, 0.5, 0.9, 0.99, 0.999]), rng.choice([2, 3, 10, 100, 1000])))
+    cases += unnormalised_trim_cases(rng, 36 if tier == "quick" else 600)
     # the full length of the quantifier with the sampler's constants
     for _ in range(2 if tier == "quick" else 12):
         _, w = c20._trim_weights_T(rng, 10000)
@@ -294,6 +331,8 @@ def suite_trim_property(tier):
         c.case(([f2hex(x) for x in w[:64]], n, ess, bins), n >= 2)
         c.count("n>=10000" if n >= 10000 else ("n>600" if n > 600 else "n<=600"))
         c.count("sampler-constants" if (ess, bins) == (0.99, 1000) else "other-constants")
+        sw = float(np.sum(np.array(w, dtype=float)))
+        c.count("sum(w)~1" if abs(sw - 1.0) < 1e-6 else ("sum(w)<1e-6" if sw < 1e-6 else ("sum(w)>1e6" if sw > 1e6 else "sum(w)!=1")))
         try:
             msg, tags = trim_property(w, ess, bins)
         except Exception as ex:  # noqa
@@ -718,8 +757,10 @@ def suite_callsite_train(tier, drv):
                 c.disagree(impl=[len(idx), idx[:30]], model=[len(tags), tags[:30]], **hint)
             continue
         kind, u, ww = rec["handed"][0]
+        untouched = np.array_equal(rec["after"], np.array(w, dtype=float))
+        c.count("caller-array:untouched" if untouched else "caller-array:normalised-in-place")
         if not (len(mw) == len(ww) and all(c20._relclose(a, b) for a, b in zip(ww.tolist(), mw))
-                and all(c20._relclose(a, b, 1e-12) for a, b in zip(rec["after"].tolist(), after))):
+                and (untouched or all(c20._relclose(a, b, 1e-12) for a, b in zip(rec["after"].tolist(), after)))):
             c.disagree(impl=[f2hex(x) for x in ww.tolist()[:10]], model=[f2hex(x) for x in mw[:10]], **hint)
         c.sample({"n": len(w), "kept": len(idx), "routine": kind, "beta": beta})
     # the same array object reaches the Resampler (execute_iteration), normalised in place
